@@ -226,6 +226,43 @@ def text_case(ctx, name, marshal, text, ref_bytes, expect_error, payload):
     return same(ctx, f"{name}:text", summary(got), want, payload, f"text {text!r} carries {ref_bytes.hex()}")
 
 
+def megabyte_texts(ctx):
+    """Texts far longer than any buffer a front end may read ahead with (2.2 MiB of hex text, 0.7 MiB of swtpm log), with
+    line layouts that put every read-ahead boundary between and inside pairs: the carried bytes are read back through the
+    *surplus* of a strict UINT16 decode (the front end's reader runs over the whole text, the decoder only over two bytes)."""
+    from tpmstream.io.hex import Hex
+    from tpmstream.io.swtpm_log import SWTPMLog
+
+    layouts = [
+        ("pairs-7-per-line", lambda d: "\n".join(" ".join(f"{b:02x}" for b in d[i : i + 7]) for i in range(0, len(d), 7))),
+        ("xxd-30-per-line", lambda d: "\n".join(d[i : i + 30].hex() for i in range(0, len(d), 30))),
+        ("odd-blank-in-pair", lambda d: "".join(f"{b:02X}"[0] + (" " if i % 5 == 0 else "") + f"{b:02X}"[1] + ("\t" if i % 3 == 0 else "") for i, b in enumerate(d))),
+    ]
+    n = 0
+    for k, (lname, render) in enumerate(layouts):
+        if k % ctx.nshards != ctx.shard:
+            continue
+        data = bytes((i * 131 + (i >> 8) * 7 + k) & 0xFF for i in range(740_000))
+        text = render(data)
+        o = O.run_decode("UINT16", text.encode(), strict=True, marshal=Hex.marshal)
+        n += 1
+        ctx.case(("mega-hex", lname), True, sample={"container": "hex", "layout": lname, "text_bytes": len(text), "carried_bytes": len(data)})
+        rem = o.outcome.get("remaining")
+        if o.outcome["kind"] != "superfluous" or rem != data[2:]:
+            d = None if rem is None else next((i for i, (a, b) in enumerate(zip(rem, data[2:])) if a != b), min(len(rem), len(data) - 2))
+            ctx.problem("C15:hex:megabyte-text", f"a {len(text)}-character hex text ({lname}) carrying {len(data)} bytes: outcome {o.outcome['kind']} ({str(o.outcome.get('message'))[:80]}), carried bytes read back {None if rem is None else len(rem)}, first difference at byte {d}", {"container": "hex", "megabyte_layout": lname})
+            return
+    if (len(layouts)) % ctx.nshards == ctx.shard:
+        data = bytes((i * 89 + 3) & 0xFF for i in range(240_000))
+        log = "".join(f"SWTPM_IO_{'Read' if j % 2 == 0 else 'Write'}: length {len(data[i:i + 4000])}\n" + "".join(" " + " ".join(f"{b:02X}" for b in data[i : i + 4000][r : r + 16]) + " \n" for r in range(0, len(data[i : i + 4000]), 16)) for j, i in enumerate(range(0, len(data), 4000)))
+        o = O.run_decode("UINT16", log.encode(), strict=True, marshal=SWTPMLog.marshal)
+        ctx.case(("mega-swtpm",), True, sample={"container": "swtpm-log", "text_bytes": len(log), "carried_bytes": len(data)})
+        rem = o.outcome.get("remaining")
+        if o.outcome["kind"] != "superfluous" or rem != data[2:]:
+            ctx.problem("C15:swtpm-log:megabyte-text", f"a {len(log)}-character swtpm log carrying {len(data)} bytes: outcome {o.outcome['kind']}, carried bytes read back {None if rem is None else len(rem)}", {"container": "swtpm", "megabyte_layout": "swtpm"})
+    ctx.count("megabyte-texts", n)
+
+
 def hex_exhaustive(ctx, max_len):
     from tpmstream.io.hex import Hex
 
@@ -298,6 +335,7 @@ def run_shard(ctx):
     L = layout()
     q = ctx.quick()
     ctx.run_plain(lambda: hex_exhaustive(ctx, 6 if q else 7), "hex-exhaustive")
+    ctx.run_plain(lambda: megabyte_texts(ctx), "megabyte-texts")
     ctx.run_plain(lambda: swtpm_exhaustive(ctx, 5 if q else 6), "swtpm-exhaustive")
     ctx.run_plain(lambda: hex_byte_sweep(ctx), "hex-byte-sweep")
     ctx.run_given(st.tuples(gen.streams(L, max_pairs=3), st.data(), st.just(False)), lambda ex: check_stream(ctx, L, ex), ctx.share(900 if q else 12000), name="streams")
@@ -314,6 +352,10 @@ def run_shard(ctx):
 def replay(ctx, payload):
     from tpmstream.io.hex import Hex
     from tpmstream.io.swtpm_log import SWTPMLog
+
+    if payload.get("megabyte_layout"):
+        ctx.nshards, ctx.shard = 1, 0
+        return megabyte_texts(ctx)
 
     if payload.get("container") == "hex-bytes":
         raw = payload["raw"]
